@@ -5,6 +5,7 @@ mod engine;
 mod gen;
 mod props;
 mod rs;
+mod selnorm;
 
 use engine::Tier;
 
